@@ -180,9 +180,21 @@ mod node_ptr {
 
 ///////////////////////////////////////////// SkipList /////////////////////////////////////////////
 
+/// The body of a skip list:  the head pointer and, through it, every node.  The list and each of
+/// its iterators share the body, so the nodes are released when the last of them goes away.
+struct Body<K, V, const MAX_HEIGHT: usize>(AtomicPtr<Node<K, V, MAX_HEIGHT>>);
+
+impl<K, V, const MAX_HEIGHT: usize> std::ops::Deref for Body<K, V, MAX_HEIGHT> {
+    type Target = AtomicPtr<Node<K, V, MAX_HEIGHT>>;
+
+    fn deref(&self) -> &Self::Target {
+        &self.0
+    }
+}
+
 /// A lock-free skip list, generic over keys and values.
 pub struct SkipList<K, V, const MAX_HEIGHT: usize = DEFAULT_MAX_HEIGHT> {
-    head: Arc<AtomicPtr<Node<K, V, MAX_HEIGHT>>>,
+    head: Arc<Body<K, V, MAX_HEIGHT>>,
 }
 
 impl<K: Eq + Ord + Default, V: Default, const MAX_HEIGHT: usize> SkipList<K, V, MAX_HEIGHT> {
@@ -362,14 +374,14 @@ impl<K: Eq + Ord + Default, V: Default, const MAX_HEIGHT: usize> Default
         for idx in 0..MAX_HEIGHT {
             node_ptr::set_next(head, idx, std::ptr::null_mut());
         }
-        let head = Arc::new(AtomicPtr::new(head));
+        let head = Arc::new(Body(AtomicPtr::new(head)));
         Self { head }
     }
 }
 
-impl<K, V, const MAX_HEIGHT: usize> Drop for SkipList<K, V, MAX_HEIGHT> {
+impl<K, V, const MAX_HEIGHT: usize> Drop for Body<K, V, MAX_HEIGHT> {
     fn drop(&mut self) {
-        let mut ptr = self.head.load(Ordering::Acquire);
+        let mut ptr = self.0.load(Ordering::Acquire);
         while !ptr.is_null() {
             let to_drop = ptr;
             ptr = node_ptr::get_next(ptr, 0);
@@ -385,7 +397,7 @@ impl<K, V, const MAX_HEIGHT: usize> Drop for SkipList<K, V, MAX_HEIGHT> {
 /// A SkipList iterator.  Will outlast the skip list it comes from if so chosen.
 #[derive(Clone)]
 pub struct SkipListIterator<K, V, const MAX_HEIGHT: usize = DEFAULT_MAX_HEIGHT> {
-    head: Arc<AtomicPtr<Node<K, V, MAX_HEIGHT>>>,
+    head: Arc<Body<K, V, MAX_HEIGHT>>,
     node: *mut Node<K, V, MAX_HEIGHT>,
 }
 
